@@ -14,6 +14,8 @@ static const fam_t FAMS[] = {
   {"inv", fam_inv},
   {"solve", fam_solve},
   {"kernel", fam_kernel},
+  {"kernels", fam_kernels},
+  {"alloc", fam_alloc},
   {NULL, NULL}};
 
 static void cfg_event(void) {
